@@ -249,10 +249,12 @@ package field
 
 //@ lemma fofint_wide(a, b, c) {lean: Secp.fofint_wide}: fadd(fadd(fofint(a), fmul(fofint(b), F(pow2(192)))), fmul(fofint(c), F(pow2(384)))) == fofint(a + b * pow2(192) + c * pow2(384))
 
+//@ lemma fofint_lin(a, b, c) {lean: SecpSMT.fofint_lin}: fadd(fofint(a), fmul(fofint(b), fofint(c))) == fofint(a + b * c)
+
 //@ func Element.HashToFieldElement
 //@   props C12
 //@   mode int
-//@   ensures v: wf(e) && fv(e) == fofint(os2ip(input)) by fofint_wide(os2ip(input[24:48]), os2ip(input[0:24]), 0)
+//@   ensures v: wf(e) && fv(e) == fofint(os2ip(input)) by fofint_wide(os2ip(input[24:48]), os2ip(input[0:24]), 0), fofint_lin(os2ip(input[16:48]), os2ip(input[0:16]), pow2(256))
 //@   modifies *e
 //@   returns e
 
